@@ -94,6 +94,40 @@ theorem step_fault_inv {M : Type} {mc : Machine M} {P : List PCmd} {s : State M}
               cases hj : jumpTarget P rs (allOps args ops) <;> simp [hj] at h
             | false => simp at h
 
+theorem step_halt_inv {M : Type} {mc : Machine M} {P : List PCmd} {s : State M} {i : Nat}
+    (hh : step mc P s i = .halt) : P.length ≤ i := by
+  unfold step at hh
+  cases hg : P[i]? with
+  | none => exact List.getElem?_eq_none_iff.1 hg
+  | some c =>
+    exfalso
+    cases c with
+    | label l => simp [hg] at hh
+    | instr mn args ops =>
+      simp only [hg] at hh
+      cases hr : mc.roles mn with
+      | none => simp [hr] at hh
+      | some rs =>
+        simp only [hr] at hh
+        cases he : evalOps s.regs rs (allOps args ops) with
+        | none => simp [he] at hh
+        | some vals =>
+          simp only [he] at hh
+          cases hx : mc.exec mn vals s.mem with
+          | fault k' => simp [hx] at hh
+          | ok out m jump =>
+            simp only [hx] at hh
+            cases jump with
+            | true =>
+              simp only [if_true] at hh
+              cases hj : jumpTarget P rs (allOps args ops) <;> simp [hj] at hh
+            | false => simp at hh
+
+theorem step_halt_of_ge {M : Type} {mc : Machine M} {P : List PCmd} {s : State M} {i : Nat}
+    (h : P.length ≤ i) : step mc P s i = .halt := by
+  have : P[i]? = none := List.getElem?_eq_none_iff.2 h
+  simp only [step, this]
+
 /-- the step of an instruction, computed -/
 theorem step_instr {M : Type} {mc : Machine M} {P : List PCmd} {s : State M} {pc : Nat}
     {mn : String} {args : List Int} {ops : List POperand} {rs : List Role} {vals : List Val}
